@@ -361,12 +361,23 @@ def many_elements_case(ctx):
     return files, table
 
 
+def colliding_signatures_case(ctx):
+    """a directed probe: (action, event) pairs whose spellings coincide when joined with '' or '_' are different signatures"""
+    table = [["S0", "door_closed", "S1", "on_open", "None"], ["S1", "closed", "S0", "on_open_door", "None"],
+             ["S0", "BEv", "S1", "OnA", "None"], ["S1", "Ev", "S0", "OnAB", "None"], ["S0", "Ev_Start", "S0", "Do", "None"], ["S1", "Start", "S1", "Do_Ev", "None"]]
+    files = {"probe_sig.txt": [("sig", [[["L", "  "], ["T", "ALPH"], ["L", "/"], ["T", "NUM"], ["L", " "], ["T", VARIANTS["ACTION"][0]], ["L", ";"]]]),
+                               ("elem", "ACTION", [[["L", "  "], ["T", "NUM"], ["L", " "], ["T", VARIANTS["ACTION"][0]], ["L", ";"]]])]}
+    return files, table
+
+
 def e2e_cases(ctx, n):
     km = ctx.km
     for i in range(n):
         directed = None
         if i == 0:
             directed = many_elements_case(ctx)
+        elif i == 1:
+            directed = colliding_signatures_case(ctx)
         nfiles = 1 if ctx.rng.random() < 0.7 else 2
         files = {"probe%d.txt" % j: [section(ctx.rng) for _ in range(ctx.rng.randint(1, 5))] for j in range(nfiles)}
         kind = ctx.rng.choice(e2e.KINDS)
